@@ -3,8 +3,16 @@ CONSTANTS Atoms = {"a", "b", "c"}
  FullConn = 2
  RepFull = TRUE
  MaxConn = 3
+ ClashAtoms = {"a", "b"}
+ XAtoms = {"x1", "x2", "x3", "x4"}
+ ClashConn = 2
+ ConstAtoms = {"a", "b"}
+ ConstConn = 2
+ WithConsts = FALSE
 INVARIANT RefTheoremValid
 INVARIANT RefEquisat
+INVARIANT RefTopIsVariable
 INVARIANT RefDefinitional
+INVARIANT RefConservative
 POSTCONDITION Emit
 CHECK_DEADLOCK FALSE
